@@ -362,21 +362,23 @@ impl App {
                     Adf::from_parser(&parser)
                 };
                 if let Some(export) = &self.export {
-                    if export.exists() {
-                        log::error!(
-                            "Cannot write JSON file <{}>, as it already exists",
-                            export.to_string_lossy()
-                        );
-                    } else {
-                        let export_file = match File::create(export) {
-                            Err(reason) => {
-                                panic!("couldn't create {}: {}", export.to_string_lossy(), reason)
-                            }
-                            Ok(file) => file,
-                        };
-                        serde_json::to_writer(export_file, &adf).unwrap_or_else(|_| {
-                            panic!("Writing JSON file {} failed", export.to_string_lossy())
-                        });
+                    // create_new fails if anything exists at the path, so an existing file is
+                    // never truncated, even if it cannot be inspected or appears concurrently
+                    match File::options().write(true).create_new(true).open(export) {
+                        Err(reason) if reason.kind() == std::io::ErrorKind::AlreadyExists => {
+                            log::error!(
+                                "Cannot write JSON file <{}>, as it already exists",
+                                export.to_string_lossy()
+                            );
+                        }
+                        Err(reason) => {
+                            panic!("couldn't create {}: {}", export.to_string_lossy(), reason)
+                        }
+                        Ok(export_file) => {
+                            serde_json::to_writer(export_file, &adf).unwrap_or_else(|_| {
+                                panic!("Writing JSON file {} failed", export.to_string_lossy())
+                            });
+                        }
                     }
                 }
 
